@@ -146,6 +146,8 @@ func gen(stream string, seed uint64, n int, outp string) {
 				}
 			}
 			switch stream {
+			case "inbound":
+				out.Line("il", wire.Enc(ns), encLabels(labels))
 			case "ambient":
 				out.Line("aq", wire.Enc(ns), encLabels(labels), encPortList(queryPort))
 			default:
